@@ -320,6 +320,7 @@ impl ParsedPacket {
         }
         let insertion_offset = self.insertion_offset(section)?;
         self.rrcount_inc(section)?;
+        self.cached = None;
         let packet_len = self.packet().len();
         let new_len = packet_len + rr_len;
         self.packet_mut().reserve(rr_len);
@@ -480,6 +481,7 @@ impl ParsedPacket {
         assert_eq!(self.ext_flags, parsed_packet.ext_flags);
         self.maybe_compressed = true;
         self.packet = Some(parsed_packet.into_packet());
+        self.cached = None;
         Ok(())
     }
 }
